@@ -56,7 +56,7 @@ def run(tier, seed, replay=None):
     rng = random.Random(seed)
     tolf = state.knot_tolerance
     tol = C.fr(tolf)
-    nobj = 160 if tier == 'quick' else 3000
+    nobj = 400 if tier == 'quick' else 3000
     Q = []       # queries: dict(snap, alpha, ab (list per dir), abt, spelling, tensor, tuples, impl (array or None), err)
     dist = {'pardim': {}, 'total_order': {}, 'rational': {}, 'spelling': {}, 'errors': {}, 'above': {}}
     if replay:
@@ -72,7 +72,9 @@ def run(tier, seed, replay=None):
         pd = len(spec['bases'])
         dist['pardim'][pd] = dist['pardim'].get(pd, 0) + 1
         dist['rational'][spec['rational']] = dist['rational'].get(spec['rational'], 0) + 1
-        dpts = [[q for q in O.dir_points(rng, b, tol, outside=False) if q[1] != 'fuzz'] for b in spec['bases']]
+        # periodic directions accept any real parameter: images of interior points and of the seam itself (where both
+        # one-sided limits are asked for) are part of the domain of derivative() too
+        dpts = [[q for q in O.dir_points(rng, b, tol, outside=True) if q[1] not in ('fuzz', 'out')] for b in spec['bases']]
         reqs = []
         if forced:
             reqs.append((tuple(forced['alpha']), forced['above'], forced.get('spelling', 'tuple'), forced.get('tensor', True),
